@@ -37,6 +37,13 @@ def materialise(base, files):
                         f.write(gzip.compress(data[a:b],
                                               compresslevel=gz.get('level',
                                                                    6), **kw))
+                    if gz.get('empty_first') and a == 0:
+                        f.write(gzip.compress(b''))
+                        gz = dict(gz, empty_first=False)
+                if gz.get('empty_last'):
+                    # a member holding no data at the END (a log re-opened
+                    # for appending and closed again): same stream
+                    f.write(gzip.compress(b''))
 
 
 def kill_group(pgid):
